@@ -27,7 +27,10 @@ m = dict(
                baseline_off_cmd='cd /repo && cargo test --workspace --no-fail-fast --offline', source_commits=[], add_only=True),
     engines=[dict(name='mirsym', path='/verif/mirsym', serves_properties=[c['property_id'] for c in checks],
                   kind_free_text='path-wise symbolic executor for rustc MIR text (-Zunpretty=mir of /repo working tree), z3 as decision procedure, '
-                                 'native observer binary for counterexample replay and translation validation')],
+                                 'native observer binary for counterexample replay and translation validation'),
+             dict(name='kani-leaves', path='/verif/kani', serves_properties=['C13', 'C14'],
+                  kind_free_text='cargo kani 0.68 / CBMC 6.11 proofs of leaf invariants (seam formatters cover only blanks, finders return line breaks); '
+                                 'second engine in the thorough tier only, never the deciding one')],
     checks=checks, not_applicable=na,
     notes='All checks: exit 0 = held on everything explored; exit 1 + VIOLATION line = natively reproduced counterexample; '
           'exit 2 = the check itself is broken/inconclusive (build failure, encoder/native disagreement, vacuity), never a verdict.')
